@@ -142,6 +142,7 @@ Local(v) ==
                       (IF v.n \in {0, 1} THEN {VBool(v.n = 1)} ELSE {}) \cup
                       (IF DAbs(v.n) <= 900 THEN {VFloat(v.n * 100)} ELSE {})
     [] v.k = "float" -> IF v.sp # "fin" THEN {}
+                        ELSE IF v.q = 200000 THEN {VFloat(150000), VInf}    \* another float of that magnitude
                         ELSE {VFloat(v.q + 25), VFloat(v.q - 25), VFloat(v.q + 1), VFloat(v.q - 1)} \cup
                              (IF v.q % 100 = 0 /\ DAbs(v.q) <= 90000 THEN {VInt(v.q \div 100)} ELSE {})
     [] v.k = "str" -> {VStr(Append(v.s, 97)), VStr(Append(v.s, 122)), VStr(<<122>> \o v.s), VBytes(v.s)} \cup
